@@ -322,6 +322,30 @@ def scanner_guards(P, chk):
         chk.require(grp, R_GUARD, "from_str|decimal point only after a complete group", b.loc(sb),
                     "the decimal-point transition is reachable without `comma_pos` being None or equal to the current index: "
                     "`1,23.45` would be accepted", "comma_pos.is_none() || comma_pos == Some(i) on every path to scale = Some(0)")
+    # --- the grouping transition: comma_pos = Some(next expected comma); only in the integral part
+    cstores = []
+    for i in sorted(b.live_blocks()):
+        for st in b.blocks[i]["stmts"]:
+            if st["k"] == "assign" and st["place"]["l"] == cpos and not st["place"]["p"] and st["rv"]["k"] == "use":
+                o = st["rv"]["op"]
+                d = mir.single_def(b, o["place"]["l"]) if o.get("k") in ("copy", "move") else None
+                if d and d[0] == "assign" and d[4]["k"] == "aggregate" and d[4].get("variant") == "Some":
+                    cstores.append(i)
+    chk.floor("grouping transitions (comma_pos = Some(..)) in the scanner", len(cstores), 1)
+    for sb in cstores:
+        integral = False
+        for cn, lab, ct in q.guard_calls(b, sb):
+            if ct["args"] and q.named_local(b, ct["args"][0]) == scale:
+                if (cn.endswith("::is_none") and lab is True) or (cn.endswith("::is_some") and lab is False):
+                    integral = True
+        for s_, kind, labels, ct in q.switch_local_tests(b, scale):
+            if kind == "variant":
+                for tb, labs in labels.items():
+                    if list(labs) == ["None"] and b.must_pass_edge(sb, s_, tb):
+                        integral = True
+        chk.require(integral, R_GUARD, "from_str|grouping commas only before the decimal point", b.loc(sb),
+                    "a comma is accepted without `scale` being None, i.e. also among the decimals: `1.2,345` reads as 1.2345",
+                    "scale.is_none() in force at comma_pos = Some(..)")
     # --- after the loop
     loops = b.loops()
     hdr = None
@@ -412,7 +436,7 @@ def run(P, chk, tier):
     chk.rule(R_CAST, "integer casts in the literal scanner / printer are value preserving for every source value")
     chk.rule(R_WRAP, "no wrapping / saturating / overflowing arithmetic in the scanner")
     chk.rule(R_ERR, "accumulator overflow and unrepresentable values become errors that reach the caller")
-    chk.rule(R_GUARD, "the scanner's acceptance guards: one decimal point, only after a complete group; complete last group; at least one digit")
+    chk.rule(R_GUARD, "the scanner's acceptance guards: one decimal point, only after a complete group; commas only before the point; complete last group; at least one digit")
     chk.rule(R_TOKEN, "the token parser hands exactly the consumed characters to the scanner through a fallible map")
     bodies = cone(P)
     chk.analysed(*bodies)
